@@ -223,3 +223,20 @@ Proof.
   - intros c. rewrite tot_at_upd_same by auto. unfold tot_at. rewrite GR, GO. apply V.
   - intros k N. apply nth_error_upd_other. auto.
 Qed.
+
+(* ---------- mass flows: a view (MW * molar flow) of the same data ---------- *)
+Definition mass_rows (mw : vec) (s : stream) : list vec := map (vmul mw) (srows s).
+Lemma scale_mass_lemma mw k s : (forall r, In r (srows s) -> length r = length mw) ->
+  length (mass_rows mw (scale k s)) = length (mass_rows mw s) /\
+  forall j i, nthq (nth j (mass_rows mw (scale k s)) []) i == k * nthq (nth j (mass_rows mw s) []) i.
+Proof.
+  intros L. unfold mass_rows. destruct (scale_rows_lemma k s) as [_ [_ R]]. rewrite R. rewrite !map_length. split; auto.
+  intros j i. rewrite map_map. destruct (Nat.lt_ge_cases j (length (srows s))) as [LT|GE].
+  - rewrite (nth_indep _ [] (vmul mw (vscale k []))) by (rewrite map_length; auto).
+    rewrite (map_nth (fun x => vmul mw (vscale k x))).
+    rewrite (nth_indep (map (vmul mw) (srows s)) [] (vmul mw [])) by (rewrite map_length; auto).
+    rewrite (map_nth (vmul mw)).
+    assert (length (nth j (srows s) []) = length mw) as LR by (apply L; apply nth_In; auto).
+    rewrite nthq_vmul by (rewrite vscale_length; auto). rewrite nthq_vmul by auto. rewrite nthq_vscale. ring.
+  - rewrite !nth_overflow by (rewrite map_length; auto). rewrite nthq_nil. ring.
+Qed.
